@@ -42,8 +42,14 @@ CLASSES = [
     ('nul', 'zq\x00j'), ('nonascii', 'zqñj'), ('cjk', 'zq日本j'), ('emoji', 'zq\U0001F600j'),
     ('quote', 'zq"j\'k'), ('bs', 'zq\\j'), ('brk', 'zq [x]'), ('brk2', 'zq [x] j'), ('pos', 'zq:1:2: j'),
     ('ls', 'zq\u2028j'), ('nlbrk', 'zq [x]\nj [y]'),
+    # text a formatting layer between message and output could interpret
+    ('pct', 'zq%dj%s'), ('pct2', 'zq%!j%[1]s100%'), ('tmpl', 'zq{{j}}$1{{.}}'), ('bsn', 'zq\\nj%0A::k'),
+    ('pct-d', 'zq%dj'), ('pct-s', 'zq%sj'), ('pct-v', 'zq%vj'), ('pct-pct', 'zq%%j'), ('pct-bang', 'zq%!j'),
+    ('pct-idx', 'zq%[1]sj'), ('pct-end', 'zq100%'), ('pct-only', 'zq%'), ('braces', 'zq{{j}}'), ('dollar', 'zq$1j'),
+    ('pct0a', 'zq%0Aj'), ('colons', 'zq::j'),
 ]
-QUICK_CLASSES = {'plain', 'nl', 'cr', 'tab', 'esc', 'nul', 'cjk', 'quote', 'bs', 'brk2', 'pos', 'nlbrk'}
+QUICK_CLASSES = {'plain', 'nl', 'cr', 'tab', 'esc', 'nul', 'cjk', 'quote', 'bs', 'brk2', 'pos', 'nlbrk',
+                 'pct', 'pct2', 'tmpl', 'bsn'}
 RAW_OK = {'plain', 'nonascii', 'cjk', 'emoji', 'quote', 'bs', 'brk', 'pos'}
 FNAMES = ['<stdin>', 'vp-c16/w.yml', 'vp c16/ワーク flow.yaml', '.github/workflows/a-b_c.yml']
 MODE_ORDER = ['oneline', 'default', 'range', 'rangecount', 'json', 'color', 'color-oneline']
@@ -282,7 +288,7 @@ def short(s, n=160):
 
 CLEAN_WF = 'on: push\njobs:\n  ok:\n    runs-on: ubuntu-latest\n    steps:\n      - run: echo\n'
 MULTI_NAMES = ['a.yml', 'b c.yaml', 'ワーク.yml', 'd.yml']
-MULTI_CLASSES = ['plain', 'cjk', 'quote', 'pos']
+MULTI_CLASSES = ['plain', 'cjk', 'pct', 'quote', 'pos', 'pct2']
 
 
 def multi_cases(sites, quick):
@@ -599,45 +605,170 @@ def run(ck, tier):
     ]
 
 
+# strings a formatting layer could interpret: the instances of the message atom "pc" (Report.tla)
+PC_VARIANTS = ['%', '%%', '%s', '%d', '%v', '%!', '%[1]s', '100%', '{{', '}}', '{{.}}', '\\', '\\n', '$1', '%0A', '::',
+               '%!d(MISSING)', '%q%c%x']
+# the documented Markdown template (docs/usage.md) as parts; the snippet is empty for constructed errors
+MD_PARTS = [('lit', '### Error at line '), ('line', ''), ('lit', ', col '), ('col', ''), ('lit', ' of `'), ('file', ''),
+            ('lit', '`\n\n'), ('msg', ''), ('lit', '\n\n```\n'), ('snip', ''), ('lit', '\n```\n\n')]
+FIELD_EXPR = {'line': '{{$err.Line}}', 'col': '{{$err.Column}}', 'file': '{{$err.Filepath}}', 'msg': '{{$err.Message}}',
+              'kind': '{{$err.Kind}}', 'snip': '{{$err.Snippet}}'}
+
+
+def api_templates():
+    md = '{{range $err := .}}' + ''.join(v.replace('\n', '\\n') if t == 'lit' else FIELD_EXPR[t] for t, v in MD_PARTS) + '{{end}}'
+    t = {'json': '{{json .}}', 'jsonl': '{{range $err := .}}{{json $err}}{{end}}', 'md': md}
+    sarif = os.path.join(vplib.REPO, 'testdata', 'format', 'sarif_template.txt')
+    if os.path.exists(sarif):
+        t['sarif'] = open(sarif, encoding='utf-8').read()
+    return t
+
+
+def parse_structured(name, out):
+    """decode the output of a JSON-producing template into the five fields per diagnostic (independent decoder)"""
+    def one(x):
+        return {'file': x.get('filepath', ''), 'line': x['line'], 'col': x['column'], 'msg': x['message'], 'kind': x['kind']}
+    try:
+        if name == 'json':
+            arr = json.loads(out)
+            return True, [one(x) for x in arr]
+        if name == 'jsonl':
+            return True, [one(json.loads(l)) for l in out.split('\n') if l.strip()]
+        if name == 'sarif':
+            doc = json.loads(out)
+            res = []
+            for r in doc['runs'][0]['results']:
+                loc = r['locations'][0]['physicalLocation']
+                res.append({'file': loc['artifactLocation']['uri'], 'line': loc['region']['startLine'],
+                            'col': loc['region']['startColumn'], 'msg': r['message']['text'], 'kind': r['ruleId']})
+            return True, res
+    except (ValueError, KeyError, TypeError, IndexError):
+        pass
+    return False, []
+
+
 def abstract_part(ck, sd, rvecs):
-    def conc(toks):
-        return ''.join(MSG_TOK[t] for t in toks)
+    """G (a): diagnostic lists generated by TLC as constructed Error values through every renderer of the API."""
+    if not rvecs:
+        return
+    templates = api_templates()
+
+    def conc(toks, pc):
+        return ''.join(pc if t == 'pc' else MSG_TOK[t] for t in toks)
     cases = []
     for i, v in enumerate(rvecs):
-        cases.append({'id': i, 'ds': [{'file': MSG_TOK['F'], 'line': 3, 'col': 7, 'msg': conc(d['msg']), 'kind': MSG_TOK['K'],
-                                       'lb': [], 'ub': []} for d in v['ds']]})
-    fin, fout = os.path.join(sd, 'abs_in.jsonl'), os.path.join(sd, 'abs_out.jsonl')
-    vplib.write_jsonl(fin, cases)
-    vplib.run_harness(['report-abstract', fin, fout, matcher_path()], env={'GOMAXPROCS': str(vplib.NCPU)})
-    outs = vplib.read_jsonl(fout)
+        has_pc = any('pc' in d['msg'] for d in v['ds'])
+        # every instance of "pc" for single diagnostics, a rotating one for longer lists
+        pcs = [''] if not has_pc else (PC_VARIANTS if len(v['ds']) <= 1 else
+                                       [PC_VARIANTS[i % len(PC_VARIANTS)], PC_VARIANTS[(i // 7 + 3) % len(PC_VARIANTS)]])
+        for pc in pcs:
+            cases.append({'id': len(cases), 'vec': i, 'pc': pc,
+                          'ds': [{'file': MSG_TOK['F'], 'line': 3, 'col': 7, 'msg': conc(d['msg'], pc), 'kind': MSG_TOK['K'],
+                                  'lb': [], 'ub': []} for d in v['ds']]})
+
+    def run(cs, name):
+        fin, fout, ft = os.path.join(sd, name + '_in.jsonl'), os.path.join(sd, name + '_out.jsonl'), os.path.join(sd, name + '_t.json')
+        vplib.write_jsonl(fin, [{'id': c['id'], 'ds': c['ds']} for c in cs])
+        json.dump(templates, open(ft, 'w'))
+        vplib.run_harness(['report-abstract', fin, fout, matcher_path(), ft], env={'GOMAXPROCS': str(vplib.NCPU)})
+        res = vplib.read_jsonl(fout)
+        if len(res) != len(cs):
+            raise Inconclusive('harness returned %d results for %d constructed lists' % (len(res), len(cs)))
+        return res
+
+    def records(c, o):
+        """property records of one constructed list: text renderers only for messages the pattern can carry"""
+        v = rvecs[c['vec']]
+        ds = [{k: d[k] for k in ('file', 'line', 'col', 'msg', 'kind', 'lb')} for d in c['ds']]
+        recs = []
+        carry = v['ds'] and all(v['faithful']) and not any(a in ('lf', 'cr') for d in v['ds'] for a in d['msg'])
+        if carry:
+            for mode, key in (('api-plain', 'lines'), ('api-range', 'range'), ('api-colour', 'color')):
+                dsm = ds if mode != 'api-colour' else [dict(d, msg=ESCAPE.sub('', d['msg'])) for d in ds]
+                recs.append(({'k': 'text', 'mode': mode, 'snip': False, 'pre': 0, 'fail': o.get('err', ''), 'ds': dsm,
+                              'ls': [{'p': x['p'], 'g': x['g'], 'n': x['n'], 'eq': x['eq'], 'm': x['m']} for x in o[key] or []]},
+                             {'kind': 'api', 'case': c['id'], 'mode': mode}))
+        for name in sorted(templates):
+            out = o['tmpl'].get(name, '\x00error: no output')
+            fail = out[1:] if out.startswith('\x00') else ''
+            if name == 'md':
+                recs.append(({'k': 'tmpl', 'mode': 'api-md', 'fail': fail, 'ds': ds, 'out': out,
+                              'parts': [{'t': t, 'v': val} for t, val in MD_PARTS if t != 'snip']},
+                             {'kind': 'api', 'case': c['id'], 'mode': 'api-md'}))
+            else:
+                ok, parsed = parse_structured(name, out) if not fail else (False, [])
+                recs.append(({'k': 'json', 'mode': 'api-' + name, 'fail': fail, 'ok': ok, 'ds': ds, 'parsed': parsed},
+                             {'kind': 'api', 'case': c['id'], 'mode': 'api-' + name}))
+        return recs
+
+    outs = run(cases, 'abs')
     mism = []
-    for v, o in zip(rvecs, outs):
+    recs = []
+    for c, o in zip(cases, outs):
+        v = rvecs[c['vec']]
         if o.get('err'):
-            raise Inconclusive('printing constructed errors failed: ' + o['err'])
-        for which in ('lines', 'range'):
+            # rendering constructed errors must not fail
+            recs.append(({'k': 'json', 'mode': 'api', 'fail': o['err'], 'ok': False, 'ds': [], 'parsed': []},
+                         {'kind': 'api', 'case': c['id'], 'mode': 'api'}))
+            continue
+        # model binding: predicted lines / captures vs. the real PrettyPrint + shipped pattern
+        for which in ('lines', 'range', 'color'):
             real = o[which] or []
             want = v['lines'] or []
             ok = len(real) == len(want)
             if ok:
                 for w, r in zip(want, real):
                     m = r['m']
-                    exp = {'ok': w['ok'], 'file': conc(w['file']), 'msg': conc(w['msg']), 'kind': conc(w['kind'])}
+                    exp = {'ok': w['ok'], 'file': conc(w['file'], c['pc']), 'msg': conc(w['msg'], c['pc']), 'kind': conc(w['kind'], c['pc'])}
                     got = {'ok': m['ok'], 'file': m['file'], 'msg': m['msg'], 'kind': m['kind']}
-                    if r['p'] != conc(w['toks']) or exp != got or \
+                    if r['p'] != conc(w['toks'], c['pc']) or exp != got or \
                             (w['ok'] and (m['line'], m['col']) != {'P': (3, 7), 'pp': (1, 2)}[w['toks'][w['pos'] - 1]]):
                         ok = False
             if not ok:
-                mism.append({'ds': v['ds'], 'path': which, 'predicted': v['lines'], 'real': real})
-    ck.cov['evaluations'] += 2 * len(rvecs)
-    ck.cov['abstract_lists_printed_and_parsed_back'] = len(rvecs)
-    ck.cov['distinct_nontrivial'] += sum(1 for v in rvecs if not all(v['faithful']))
+                mism.append({'ds': v['ds'], 'pc': c['pc'], 'path': which, 'predicted': v['lines'], 'real': real})
+        recs += records(c, o)
+    ck.cov['evaluations'] += (3 + len(templates)) * len(cases)
+    ck.cov['abstract_lists_printed_and_parsed_back'] = len(cases)
+    ck.cov['api_renderers'] = ['PrettyPrint', 'PrettyPrint+colour', 'header template'] + sorted(templates)
+    ck.cov['distinct_nontrivial'] += sum(1 for c in cases if c['pc'] or not all(rvecs[c['vec']]['faithful']))
+    # the property on the constructed values, judged by TLC
+    bad, _ = validate(ck, recs, '%d constructed diagnostic lists x API renderers' % len(cases), 'trace-api')
+    ck.cov['traces_validated_against_impl'] += len(recs)
+    if bad:
+        ids = sorted({recs[i][1]['case'] for i in bad})
+        sub = [dict(cases[k]) for k in ids[:200]]
+        outs2 = run(sub, 'abs-rerun')
+        recs2 = []
+        for c2, o2 in zip(sub, outs2):
+            if o2.get('err'):
+                recs2.append(({'k': 'json', 'mode': 'api', 'fail': o2['err'], 'ok': False, 'ds': [], 'parsed': []},
+                              {'kind': 'api', 'case': c2['id'], 'mode': 'api'}))
+            else:
+                recs2 += records(c2, o2)
+        bad2, _ = validate(ck, recs2, 're-execution of rejected constructed lists', 'trace-api-rerun')
+        groups = {}
+        for j, code in sorted(bad2.items()):
+            rec, br = recs2[j]
+            g = groups.setdefault('api:%s:%s' % (code, br['mode']), {'n': 0, 'first': None})
+            g['n'] += 1
+            if g['first'] is None:
+                c = cases[br['case']]
+                shown = rec.get('out') if rec['k'] == 'tmpl' else ([x['p'] for x in rec['ls']] if rec['k'] == 'text' else rec.get('parsed'))
+                g['first'] = ('constructed errors with messages %s rendered by %s: %s; observed %s'
+                              % ([short(d['msg'], 80) for d in c['ds']], br['mode'],
+                                 explain(code, rec)[0] if code != 'template' else 'the template output is not the parts with the fields filled in verbatim',
+                                 short(shown, 300)),
+                              {'kind': 'api', 'code': code, 'mode': br['mode'], 'ds': c['ds']})
+        for site, g in sorted(groups.items()):
+            ck.violation(site, g['first'][0] + ' (%d rejected records)' % g['n'], g['first'][1])
+        if not bad2:
+            raise Inconclusive('%d rejected API records were not rejected again when re-executed' % len(bad))
     if mism:
-        ck.note('model drift: %d of %d generated diagnostic lists are printed/parsed differently from the render '
+        ck.note('model drift: %d of %d constructed diagnostic lists are printed/parsed differently from the render '
                 'model (the model of PrettyPrint or of the matcher regexp does not fit this tree), e.g. %s'
-                % (len(mism), len(rvecs), json.dumps(mism[0])[:700]))
+                % (len(mism), len(cases), json.dumps(mism[0])[:700]))
         ck.cov['abstract_model_drift'] = len(mism)
-    if rvecs:
-        ck.sample({'abstract_vector': rvecs[len(rvecs) // 2]})
+    ck.sample({'abstract_vector': rvecs[len(rvecs) // 2]})
 
 
 def anchor(msg):
